@@ -1,6 +1,6 @@
 (* C13 — metadata filters mean what the documented language says. *)
 From Coq Require Import ZArith.
-From Syz Require Import QEval QSemProofs QParseProofs.
+From Syz Require Import QParseTree QEval QSemProofs QParseProofs.
 Open Scope N_scope.
 
 (* For every regular-expression oracle, every expression e of the documented operators
@@ -19,8 +19,34 @@ Theorem C13_exists : forall re neg p d,
 Proof. exact exists_sem. Qed.
 Print Assumptions C13_exists.
 
-(* AND binds tighter than OR (instance, by computation on the parser model; the general
-   parser round trip is not proved: see C13_parse_partial in DESIGN.md) *)
+(* the parser half, for every text: if the token stream of the text (as the lexer model produces it on the fly) is the
+   rendering of a documented expression e — OR of ANDs of comparisons, NOT ( ... ), parentheses anywhere, field paths
+   with .name and [index], IN lists of numbers and strings — followed by the end of the input, then Parse returns
+   exactly the tree of e: AND binds tighter than OR, both associate to the left, redundant parentheses change nothing *)
+Theorem C13_parse_tree : forall pf text e t s',
+  Renders pf LOr e t -> Follows t (init_pst text) s' -> ttyp (cur s') = TEOF ->
+  parse pf text = POk (to_node e).
+Proof. exact parse_builds_tree. Qed.
+Print Assumptions C13_parse_tree.
+
+(* both halves together: such a text, built into a filter, accepts a document on which it is well typed exactly
+   when the expression is true *)
+Theorem C13_filter_meaning : forall pf re text e t s' d b,
+  Renders pf LOr e t -> Follows t (init_pst text) s' -> ttyp (cur s') = TEOF ->
+  sem re e d = Some b ->
+  exists n, parse pf text = POk n /\ eval re n d = EOk (JBool b).
+Proof.
+  intros pf re text e t s' d b Hr Hf He Hs. exists (to_node e). split.
+  - exact (parse_builds_tree pf text e t s' Hr Hf He).
+  - exact (eval_sem re e d b Hs).
+Qed.
+Print Assumptions C13_filter_meaning.
+
+(* the premises are satisfiable: "a == 1 OR NOT (u.x EXISTS) AND (b IN [2, 'k'])" *)
+Example C13_parse_tree_nonvacuous : parse pf_small ex_text = POk (to_node ex_expr).
+Proof. exact ex_parse. Qed.
+
+(* AND binds tighter than OR (the first instance, by computation on the parser model) *)
 Theorem C13_precedence_instance :
   parse pf_small t_prec
   = POk (NExpr s_OR (Some (eqn 97 4607182418800017408))
